@@ -31,7 +31,8 @@
 EXTENDS Integers, Sequences, TLC
 
 CONSTANTS MaxChunks,      \* bound on chunks per behaviour (model checking only)
-          ApplyAsPinned   \* TRUE: Apply leaves pc at -1, as the pinned commit did (must be refuted)
+          ApplyAsPinned,  \* TRUE: Apply leaves pc at -1, as the pinned commit did (must be refuted)
+          EvalFnAsPinned  \* TRUE: zygo.EvalFunction called by the host leaves pc one further (must be refuted)
 
 VARIABLES main,      \* size of the top-level buffer (abstract: one unit per chunk)
           pc,        \* program counter inside the top-level buffer; main = at the end (nothing pending)
@@ -84,7 +85,7 @@ SourceF(s, id, kind) ==
 EvalFnF(s, id, kind) ==
     [s EXCEPT !.fx = IF id = 0 THEN @ ELSE Append(@, id),
               !.out = IF kind = "fail" THEN <<"err">> ELSE IF id = 0 THEN <<"nil">> ELSE <<"val", id>>,
-              !.loaded = @ + 1]
+              !.pc = IF EvalFnAsPinned /\ kind = "ok" /\ id # 0 THEN @ + 1 ELSE @, !.loaded = @ + 1]
 ClearF(s) == [s EXCEPT !.main = 0, !.pc = 0, !.pending = <<>>, !.out = <<"nil">>]
 
 (* ---- the state machine, for the model checker ---- *)
